@@ -50,6 +50,9 @@ def run(ctx):
     rep = fuzz(ctx, cases, 3 if thorough else 40, ctx.seed, 48 if thorough else 24)
     for d in rep["disagreements"]:
         ctx.disagreement(d["sig"], d["detail"], d["case"])
+    # decoding from several goroutines at once (the client decodes in its receive loop while callers decode nothing, but
+    # several clients of one process do): first use of every type inside a spin barrier, fresh processes
+    p_codec.concurrent(ctx, cases, "C15", thorough, kinds=("decode", "process-died"))
     C.write_evidence(ctx, "model_checking", {
         "states": mc.distinct, "transitions": mc.generated, "traces_validated_against_impl": rep["evaluations"],
         "evaluations": rep["evaluations"], "distinct_nontrivial": rep["extra"].get("classes", 2),
